@@ -15,7 +15,8 @@ def run(tier, seed):
     # the reference semantics executes every module in its own namespace (each module's globals are its own, __name__ is the
     # module name), which is the meaning of "the single-file program obtained by prefixing every library-level name"
     recs = run_bounded(rep, "C13", [("modules-collide", {"modules": True}, "modules", 700 if q else 15000),
-                                    ("modules-labels", {"modules": True, "collide": False}, "modules-rl", 400 if q else 8000)],
+                                    ("modules-labels", {"modules": True, "collide": False}, "modules-rl", 400 if q else 8000),
+                                    ("modules-sibling", {"modules": True, "sibling_tail": True}, "modules", 300 if q else 6000)],
                        budget_s=60 if q else 1200, seed=seed, want=["C13", "C01", "C02"], clause="compiler.compile_code#modules_behave_like_merged_source")
     # failures of the simulation postcondition on module programs are failures of this property
     bad = [r for r in recs if r.get("fails", {}).get("C02") or r.get("fails", {}).get("C01")]
